@@ -214,24 +214,24 @@ func (r *Run) Note(s string) {
 func (r *Run) Exhaustive(b bool) { r.mu.Lock(); r.exhaustive = &b; r.mu.Unlock() }
 
 type summary struct {
-	Property    string           `json:"property"`
-	Part        string           `json:"part"`
-	Seed        int64            `json:"seed"`
-	Tier        string           `json:"tier"`
-	Shard       int              `json:"shard"`
-	Shards      int              `json:"shards"`
-	Evaluations int64            `json:"evaluations"`
-	Distinct    []string         `json:"distinct"`
-	Samples     []any            `json:"samples"`
-	Violations  []Violation      `json:"violations"`
-	ViolCount   map[string]int   `json:"viol_count"`
-	Inconcl     map[string]int   `json:"inconclusive"`
-	Counters    map[string]int64 `json:"counters"`
+	Property    string              `json:"property"`
+	Part        string              `json:"part"`
+	Seed        int64               `json:"seed"`
+	Tier        string              `json:"tier"`
+	Shard       int                 `json:"shard"`
+	Shards      int                 `json:"shards"`
+	Evaluations int64               `json:"evaluations"`
+	Distinct    []string            `json:"distinct"`
+	Samples     []any               `json:"samples"`
+	Violations  []Violation         `json:"violations"`
+	ViolCount   map[string]int      `json:"viol_count"`
+	Inconcl     map[string]int      `json:"inconclusive"`
+	Counters    map[string]int64    `json:"counters"`
 	Sets        map[string][]string `json:"sets"`
-	Notes       []string         `json:"notes"`
-	WallS       float64          `json:"wall_s"`
-	Exhaustive  *bool            `json:"exhaustive,omitempty"`
-	Complete    bool             `json:"complete"`
+	Notes       []string            `json:"notes"`
+	WallS       float64             `json:"wall_s"`
+	Exhaustive  *bool               `json:"exhaustive,omitempty"`
+	Complete    bool                `json:"complete"`
 }
 
 // Finish writes the summary to $VERIF_OUT (or stdout when unset). A child that dies before Finish
